@@ -55,6 +55,7 @@ type Workload struct {
 	Ops   []Op
 	Model bool // compared with the Lean model point by point (canonical schedule enforced)
 	Free  bool // no schedule enforcement: goroutines interleave freely (property predicate only)
+	SaveFirst bool // adversarial schedule: a block write waits until a snapshot that has begun is complete
 	Shape string
 }
 
@@ -89,6 +90,10 @@ func workloads(r *vlib.Run) []Workload {
 		{Name: "extend-free", Free: true, Shape: "extend", Ops: []Op{skip(0),
 			blk("A1", "", 2, "f1"), idle, blk("A2", "", 1, "A1.0"), idle, blk("A3", "", 1, "A1.1"), idle, blk("A4", "", 0), idle, closeOp}},
 	}
+	// adversarial schedule for the Chain.Idle ordering (blocks flushed BEFORE a snapshot starts): every block write is
+	// held back while a snapshot is being written. With the code as written no snapshot can be active at that moment.
+	ws = append(ws, Workload{Name: "save-priority", Free: true, SaveFirst: true, Shape: "save", Ops: []Op{skip(0),
+		blk("A1", "", 2, "f1"), idle, blk("A2", "", 1, "A1.0"), idle, blk("A3", "", 0), idle, closeOp}})
 	if r.Thorough() {
 		ws = append(ws,
 			Workload{Name: "reorg-no-save", Model: true, Shape: "reorg-before-any-save", Ops: []Op{skip(100),
@@ -373,6 +378,7 @@ type Sched struct {
 	curTip   func() string
 	copyErr  error
 	only     int // >0: copy only this hit (replay)
+	saveFirst bool
 }
 
 func newSched(dir, snaps string, enforce bool) *Sched {
@@ -382,6 +388,9 @@ func newSched(dir, snaps string, enforce bool) *Sched {
 }
 
 func (s *Sched) ready(name string) bool {
+	if s.saveFirst && name == "blockdb.write:before-dat" {
+		return !s.saveAct && !s.fileLive
+	}
 	if !s.enforce {
 		return true
 	}
@@ -399,6 +408,9 @@ func (s *Sched) ready(name string) bool {
 }
 
 func (s *Sched) point(name string) {
+	if s.saveFirst && name == "blockdb.write:before-dat" {
+		time.Sleep(15 * time.Millisecond) // let a snapshot goroutine that was just started reach its first point
+	}
 	s.mu.Lock()
 	deadline := time.Now().Add(5 * time.Second)
 	for !s.ready(name) {
@@ -530,6 +542,7 @@ func runWorkload(root string, base *Base, w Workload, only int) *WlRun {
 	}
 	s := newSched(wr.Dir, wr.Snaps, !w.Free)
 	s.only = only
+	s.saveFirst = w.SaveFirst
 	s.snapTip = base.Tip
 	vhook.Set(func(name string) {
 		if name == "utxo.save.file:renamed" {
